@@ -36,9 +36,20 @@ pub fn type_to_tokens(ty: &ASN1Type) -> String {
             .join(" | "),
         ASN1Type::Choice(c) => format_choice_options(c),
         ASN1Type::Set(se) | ASN1Type::Sequence(se) => format_sequence_or_set_members(se),
-        ASN1Type::SetOf(s) | ASN1Type::SequenceOf(s) => type_to_tokens(&s.element_type) + "[]",
+        ASN1Type::SetOf(s) | ASN1Type::SequenceOf(s) => {
+            element_type_to_tokens(&s.element_type) + "[]"
+        }
         ASN1Type::ElsewhereDeclaredType(e) => to_jer_identifier(&e.identifier),
         _ => String::from("any"),
+    }
+}
+
+/// Renders the element type of a `SEQUENCE OF` or `SET OF`. Union types are
+/// parenthesized, because the array suffix binds tighter than `|`.
+pub fn element_type_to_tokens(ty: &ASN1Type) -> String {
+    match ty {
+        ASN1Type::Enumerated(_) | ASN1Type::Choice(_) => format!("({})", type_to_tokens(ty)),
+        _ => type_to_tokens(ty),
     }
 }
 
